@@ -347,23 +347,82 @@ theorem dirload_only_adds (s : PState) :
     (step s .dirLoad).mem.w = s.mem.w :=
   dirLoadMem_mono s.mem s.main _
 
-/-
-Statement WITHOUT the failure hypothesis (FALSE on a fresh install, witness `fresh_install_gap`):
+/-- nothing in the process ever makes the directory disappear: once it exists
+(`New` creates it) it exists in every reachable state. -/
+theorem directory_stays (s : PState) (steps : List Step) (h : s.dirMissing = false) :
+    (run s steps).dirMissing = false := by
+  induction steps generalizing s with
+  | nil => exact h
+  | cons st t ih =>
+    apply ih
+    cases st with
+    | mutate op => unfold step; simp only; split <;> exact h
+    | begin i ok =>
+      unfold step; simp only
+      split
+      · exact h
+      · split
+        · exact h
+        · split
+          · exact h
+          · split <;> exact h
+    | write ok =>
+      unfold step; simp only
+      split
+      · split
+        · split
+          · exact h
+          · exact h
+        · exact h
+      · exact h
+    | sync ok =>
+      unfold step; simp only
+      split
+      · split
+        · split <;> exact h
+        · exact h
+      · exact h
+    | close ok =>
+      unfold step; simp only
+      split
+      · split
+        · split <;> exact h
+        · exact h
+      · exact h
+    | rename ok =>
+      unfold step; simp only
+      split
+      · split
+        · split <;> exact h
+        · exact h
+      · exact h
+    | commit =>
+      unfold step; simp only
+      split
+      · split <;> exact h
+      · exact h
+    | dirLoad => exact h
+    | mkdir => rfl
 
-  ∀ steps in which every file-system call is told to succeed (all `ok = true`),
-    pending = [] → inflight = none → version > 0 → main = render ⟨version, mem⟩
+/-- **Fresh install**: `New` creates the blocklist directory before anything can
+be persisted (fix 231fcf6; before it only `refreshRemote` did, one second later,
+and a mutation in that second was lost — `missing_directory_fails_persist` is
+that behaviour).  So in every state reachable after `New`, over a directory that
+did not exist, `os.CreateTemp` does not fail by itself; concretely the first
+`Set`, with every call succeeding, is on disk when it returns. -/
+theorem fresh_install_persists (w c : List Str) (s : PState) (steps : List Step) :
+    (run (restart w c s) steps).dirMissing = false ∧
+    (let s1 := run (restart [] [] { dirMissing := true })
+        ([.mutate (.set "a.com.".toList), .begin 0 true, .write true, .write true, .sync true, .close true,
+          .rename true, .commit])
+     s1.main = some [headerLine, "a.com.".toList] ∧ s1.mem.m = ["a.com.".toList] ∧ s1.failed = []) :=
+  ⟨directory_stays _ steps rfl, by decide⟩
 
-`New` does not create `BlockListDir`; `refreshRemote` does, one second after
-start-up (`mkdir`).  Until then `os.CreateTemp` fails by itself, the completed API
-call returns success, and nothing is on disk.  `persist_converges` is the
-statement that holds: the failed `persist` is recorded in `failed`.
--/
-
-/-- **Fresh-install window** (counter-witness and repair): with the directory
-still missing, a completed `Set` — every call "succeeds" as far as the
-environment is concerned — leaves memory holding the entry and no file at all;
-after `mkdir` the next mutation's `persist` writes everything. -/
-theorem fresh_install_gap :
+/-- what the fix removed, kept as the model's account of a directory that is
+missing under a RUNNING process (removed by someone else: the `nodir` fault of the
+harness): the `persist` fails by itself, the completed call leaves memory ahead
+of the file, and the next mutation after the directory is back writes everything. -/
+theorem missing_directory_fails_persist :
     let s0 : PState := { dirMissing := true }
     let s1 := run s0 [.mutate (.set "a.com.".toList), .begin 0 true]
     (s1.pending = [] ∧ s1.inflight = none ∧ s1.version = 1 ∧ s1.mem.m = ["a.com.".toList] ∧ s1.main = none ∧
